@@ -11,9 +11,11 @@ SPEC = dict(
              "empty arrays into empty objects, hence = render d without empty arrays; (c) the unrestricted statement is refuted "
              "with witnesses ({\"a\":[]}, the empty document) and the repaired defect is kept as a theorem about the whole-text "
              "replacement ({\"a\":\"[{x}]\"} came back as {\"a\":\"{x}\"}); (d) member names and scalar literals come back in the "
-             "same order, digit for digit. Tie, checked on every run: the real JsonFromEEBUSJson against the model byte-exact on "
+             "same order, digit for digit; (e) end to end through the SHIP data envelope (placeholder splice): the text the receiver "
+             "decodes from the sender's websocket message is the envelope around exactly render(norm d). Tie, checked on every run: the real JsonFromEEBUSJson against the model byte-exact on "
              "arbitrary and mutated wire text, the real JsonIntoEEBUSJson against the model as text and as trees on random "
-             "documents, and the shape and round-trip monitors of the theorems evaluated inside Coq on the implementation's own outputs.",
+             "documents, two real ShipConnections (WriteShipMessageWithPayload -> HandleIncomingWebsocketMessage -> SPINE reader, "
+             "also buffered before completion) against the envelope model, and the shape and round-trip monitors of the theorems evaluated inside Coq on the implementation's own outputs.",
         note="Trusted: Coq kernel + vm_compute; the Go-AST translator (harness/cmd/extract/eebus.go); jsondrv (generator, its "
              "tokenizer, case transport code). Modelled, not verified: encoding/json and go-ordered-json decoding and string "
              "escaping (the model starts from the decoded tree with literals in json.Marshal's spelling); documents with "
@@ -29,16 +31,20 @@ SPEC = dict(
            11: "roundtrip_lost_empty_array",
            12: "roundtrip_corrupted_string_containing_pattern",
            13: "roundtrip_lost_empty_document",
-           14: "roundtrip_other_loss"},
+           14: "roundtrip_other_loss",
+           15: "spine_payload_not_delivered"},
     rule="fixed inputs first (the refutation witnesses of props/C07.v, the helper_test.go messages, SHIP handshake messages, "
-         "pattern fragments); then 62% random documents with a top-level object (depth <= 6, width <= 6, <= 50 nodes, empty "
+         "pattern fragments); then 15% SPINE payload documents sent through one real ShipConnection and received by another "
+         "(half of them buffered before the receiver's handshake completes); 47% random documents with a top-level object (depth <= 6, width <= 6, <= 50 nodes, empty "
          "objects/arrays, strings over alphabets rich in []{},\"\\ plus control/non-ASCII/HTML characters, numbers incl. 30+ "
          "digits, exponents, -0, 1.0; true/false/null; a quarter re-spelled with other escapes and white space in the input) "
          "through the real JsonIntoEEBUSJson then JsonFromEEBUSJson, outputs tokenised by the driver's own order- and "
          "literal-preserving parser; 18% arbitrary byte strings (structural alphabet / any byte / pattern fragments) and 20% "
          "mutated or NUL-padded wire text through the real JsonFromEEBUSJson. distinct = hash of the input (document text or "
-         "bytes); non-trivial = the implementation's output differs from the (compact) input, i.e. the transform did something.",
-    trusted=["encoding/json + go-ordered-json decoding and string escaping are outside the model (literals are canonicalised with json.Marshal by the driver)",
+         "bytes); non-trivial = the implementation's output differs from the (compact) input, i.e. the transform did something "
+         "(end to end: a payload was delivered for a document of more than two nodes).",
+    trusted=["ship.VerifApproveHandshake (build tag verif) completes the handshake of the two real connections; fake websocket writer / SPINE reader / info provider in jsondrv",
+             "encoding/json + go-ordered-json decoding and string escaping are outside the model (literals are canonicalised with json.Marshal by the driver)",
              "member names are distinct within an object (go-ordered-json keeps one value for a repeated name)"],
     assumptions=["eebus_pairs / trim cutset / strip literals (regenerated from ship/helper.go) are the passes JsonFromEEBUSJson applies, in order",
                  "semantic equality of compact documents with canonical literals is equality of their rendered bytes (and of the driver's token trees; both are compared)"],
